@@ -1,2 +1,79 @@
-(* C10 — stub: no theorems yet *)
-From Zap Require Import Base.Wire C10.Model C10.Proofs.
+(* C10 — field and sink failures are contained and reported; the entry is never lost. Statements only. *)
+From Coq Require Import List ZArith Bool.
+From Coq.Strings Require Import Byte.
+Import ListNotations.
+From Zap Require Import Base.Wire Enc.Bytes Enc.Fields Enc.JsonEnc Enc.JsonParse Enc.WireEnc Enc.JsonAst Enc.Wf
+  Enc.Parse3 Enc.Parse4 C02.Model C10.Model C10.Proofs.
+
+(* Whatever fails inside the field trees, the entry is still one valid JSON object that decodes to the
+   reference members: there is no hypothesis excluding faults (marshaler errors at any depth,
+   panicking or nil Stringers and errors, values encoding/json rejects are all in [fld]). *)
+Theorem C10_entry_still_valid : forall c ctxs ent fs,
+  q_nil_caller_guard c = true -> q_layout_escaped c = true ->
+  forallb wf_flds ctxs = true -> wf_flds fs = true -> wf_entry ent = true ->
+  owf_ctxs ctxs -> owf_flds fs -> rend_pre (t_rend (time_val ent)) ->
+  exists out,
+    encode_entry c false (with_chain c false ctxs) ent fs = Some out /\
+    line_obj (resolved_le c) out = Some (jv_mem (entry_members c ctxs ent fs)).
+Proof. exact entry_valid. Qed.
+Print Assumptions C10_entry_still_valid.
+
+(* ... and in those members a failing field shows up as exactly one extra '<key>Error' string member,
+   next to whatever the field had already contributed; its siblings are untouched *)
+Theorem C10_object_error : forall c k calls msg o,
+  ev_fld c (FObject k (Obj calls (Some msg))) o = push (ev_fld c (FObject k (Obj calls None)) o) (str_m (k ++ s_Error) msg).
+Proof. exact obj_error. Qed.
+Print Assumptions C10_object_error.
+Theorem C10_inline_error : forall c calls msg o,
+  ev_fld c (FInline (Obj calls (Some msg))) o = push (ev_fld c (FInline (Obj calls None)) o) (str_m s_Error msg).
+Proof. exact inline_error. Qed.
+Print Assumptions C10_inline_error.
+Theorem C10_array_error : forall c k es msg o, snd (Refine4.ev_elems' c false es) = None ->
+  ev_fld c (FArray k (Arr es (Some msg) false)) o = push (ev_fld c (FArray k (Arr es None false)) o) (str_m (k ++ s_Error) msg).
+Proof. exact arr_error. Qed.
+Print Assumptions C10_array_error.
+Theorem C10_stringer_panic : forall c k m o, ev_fld c (FStringer k (OPanic m)) o = push o (str_m (k ++ s_Error) (panic_err m)).
+Proof. exact stringer_panic. Qed.
+Print Assumptions C10_stringer_panic.
+Theorem C10_stringer_nil : forall c k o, ev_fld c (FStringer k ONilPtr) o = push o (str_m k s_nilptr).
+Proof. exact stringer_nil. Qed.
+Print Assumptions C10_stringer_nil.
+Theorem C10_error_panic : forall c k m v g o, ev_fld c (FError k (ErrV (OPanic m) v g)) o = push o (str_m (k ++ s_Error) (panic_err m)).
+Proof. exact error_panic. Qed.
+Print Assumptions C10_error_panic.
+Theorem C10_reflect_failure : forall c k m o, ev_fld c (FReflect k (RErr m)) o = push o (str_m (k ++ s_Error) m).
+Proof. exact reflect_fail. Qed.
+Print Assumptions C10_reflect_failure.
+Theorem C10_siblings_intact : forall c fs1 f fs2 o, ev_flds c (fs1 ++ f :: fs2) o = ev_flds c fs2 (ev_fld c f (ev_flds c fs1 o)).
+Proof. exact siblings. Qed.
+Print Assumptions C10_siblings_intact.
+
+(* sinks and cores: for every tree of cores (tees and forwarding wrappers to any depth), every
+   per-sink outcome and every entry, CheckedEntry.Write + multiCore.Write + ioCore.Write reach every
+   sink exactly once, in order, whatever failed before (the remaining cores of a tee still get the entry),
+   and collect every write error, in order, into the one report on the error output *)
+Theorem C10_sink_all_written : forall hi k c, fst (entry_write hi k c) = spec_events hi k c.
+Proof. exact sink_events. Qed.
+Print Assumptions C10_sink_all_written.
+Theorem C10_sink_write_errors_reported : forall hi k c, snd (entry_write hi k c) = spec_write_errs k c.
+Proof. exact sink_errs. Qed.
+Print Assumptions C10_sink_write_errors_reported.
+
+(* the full statement (sync failures reported too) is false of the code: ioCore.Write drops the
+   error of the Sync it performs for entries above ErrorLevel (known finding iocore-sync-error-ignored) *)
+Theorem C10_sink_full_refuted : ~ sink_full.
+Proof. exact sink_full_refuted. Qed.
+Print Assumptions C10_sink_full_refuted.
+Theorem C10_sink_reported_partial : forall hi k c, no_sync_fault c = true ->
+  snd (entry_write hi k c) = spec_write_errs k c ++ spec_sync_errs hi k c.
+Proof. exact sink_reported_partial. Qed.
+Print Assumptions C10_sink_reported_partial.
+
+Theorem C10_wire : forall i, case_ok i -> spec i (model i) = true.
+Proof. exact wire_thm. Qed.
+Print Assumptions C10_wire.
+
+Example C10_example_sink :
+  entry_write true 0 (STee [SLeaf 0 [{| werr := Some [x45]; serr := None |}]; SWrap (STee [SLeaf 1 []; SLeaf 2 [{| werr := Some [x46]; serr := None |}]])])
+  = ([EvW 0; EvW 1; EvS 1; EvW 2], [[x45]; [x46]]).
+Proof. vm_compute. reflexivity. Qed.
